@@ -17,7 +17,7 @@ from fiddle._src.experimental import serialization
 from harness import common, l2, c02
 from harness.common import Failure, Result, Stream, g_list, g_pair, g_N, g_nat, g_codes
 
-COQ_TARGETS = ["theories/C09Check.vo", "theories/Anchors.vo"]
+COQ_TARGETS = ["theories/C09Check.vo"]
 TRUSTED_BASE = ["json.dumps / json.loads at the text level", "importlib (symbol resolution)"]
 ASSUMPTIONS = ["at the graph level (de)serialization is modelled as a memoized copy through a table of objects; "
                "names, the debugging 'paths' field and the encoding of traverser metadata are not modelled"]
